@@ -134,9 +134,14 @@ def check_inverse(mn, m, U):
         return out
     if not (0 <= e[0] <= 2 * math.pi and 0 <= e[1] <= math.pi and 0 <= e[2] <= 2 * math.pi):
         bad('u_to_euler range', e, '[0,2pi]x[0,pi]x[0,2pi]')
-    back = m.euler_to_u(*e)
-    if np.abs(back - U).max() > 1e-6:
-        bad('euler_to_u(u_to_euler)', back, U.tolist())
+    else:
+        # (angles outside the range are rejected by euler_to_u's own input check: nothing to rebuild)
+        try:
+            back = m.euler_to_u(*e)
+            if np.abs(back - U).max() > 1e-6:
+                bad('euler_to_u(u_to_euler)', back, U.tolist())
+        except ValueError as ex:
+            bad('euler_to_u(u_to_euler) raised', e, 'the input matrix (%s)' % ex)
     tr = np.trace(U)
     ang = math.acos(max(-1, min(1, (tr - 1) / 2)))
     if abs(ang - math.pi) > 1e-6:
